@@ -164,6 +164,9 @@ def _worker_inner(pid, verif_seed, start, stop, tier, want_digests):
         "fault_free": 0, "digests": [], "error": None,
     }
     seen_keys = set()
+    lines_hit = None
+    if start == 0 and not want_digests:
+        lines_hit = _start_line_probe()
     gc.disable()
     try:
         for index in range(start, stop):
@@ -214,7 +217,87 @@ def _worker_inner(pid, verif_seed, start, stop, tier, want_digests):
         res["error"] = "run index %d: %s" % (index, traceback.format_exc())
     finally:
         gc.enable()
+        if lines_hit is not None:
+            _stop_line_probe()
+            res["lines"] = sorted(lines_hit)
     return res
+
+
+# ---- reach measure: which lines of the library the first chunk of a batch executed (sys.monitoring, each line once)
+_TOOL_ID = 3
+
+
+def _start_line_probe():
+    import sys as _sys
+
+    mon = getattr(_sys, "monitoring", None)
+    if mon is None:  # pragma: no cover
+        return None
+    hit = set()
+    prefix = os.path.join(repo_dir(), "asyncstdlib") + os.sep
+
+    def on_line(code, line):
+        fn = code.co_filename
+        if fn.startswith(prefix):
+            hit.add((fn[len(prefix):], line))
+        return mon.DISABLE
+
+    try:
+        mon.use_tool_id(_TOOL_ID, "aslsim-reach")
+    except ValueError:
+        return None
+    mon.register_callback(_TOOL_ID, mon.events.LINE, on_line)
+    mon.set_events(_TOOL_ID, mon.events.LINE)
+    return hit
+
+
+def _stop_line_probe():
+    import sys as _sys
+
+    mon = _sys.monitoring
+    mon.set_events(_TOOL_ID, 0)
+    mon.register_callback(_TOOL_ID, mon.events.LINE, None)
+    mon.free_tool_id(_TOOL_ID)
+
+
+def executable_lines(path):
+    """Line numbers that carry code in a source file (from the compiled code objects)"""
+    try:
+        code = compile(open(path).read(), path, "exec")
+    except Exception:  # pragma: no cover
+        return set()
+    out = set()
+    todo = [code]
+    while todo:
+        co = todo.pop()
+        for _, _, ln in co.co_lines():
+            if ln is not None:
+                out.add(ln)
+        todo.extend(c for c in co.co_consts if hasattr(c, "co_lines"))
+    return out
+
+
+def anchor_file_coverage(pid, lines):
+    """Per file anchored by the property: executed / executable lines (first chunk of the batch only)"""
+    files = []
+    try:
+        for row in open(os.path.join(VERIF_DIR, "properties.jsonl")):
+            prop = json.loads(row)
+            if prop["id"] == pid:
+                files = prop["anchors"]["files"]
+    except Exception:  # pragma: no cover
+        return {}
+    byfile = {}
+    for fn, ln in lines:
+        byfile.setdefault(fn, set()).add(ln)
+    out = {}
+    for f in files:
+        base = os.path.basename(f)
+        execl = executable_lines(os.path.join(repo_dir(), f))
+        # module level lines (imports, defs) run at import time, before the probe: count function bodies only
+        hit = byfile.get(base, set()) & execl
+        out[f] = {"lines_executed_in_first_chunk": len(hit), "executable_lines": len(execl)}
+    return out
 
 
 # --------------------------------------------------------------------------- replay / shrink
@@ -395,7 +478,7 @@ def run_check(pid, tier="quick", runs=None, workers=None, verif_seed=None, write
     merged = {
         "evaluations": 0, "runs": 0, "shapes": set(), "traces": set(), "faults": Counter(),
         "probes": Counter(), "steps": 0, "sim_time": 0, "violations": [], "known": Counter(),
-        "samples": [], "capped": 0, "breaches": 0, "fault_free": 0, "digests": [],
+        "samples": [], "capped": 0, "breaches": 0, "fault_free": 0, "digests": [], "lines": [],
     }
     for start in sorted(results):
         r = results[start]
@@ -406,6 +489,8 @@ def run_check(pid, tier="quick", runs=None, workers=None, verif_seed=None, write
         merged["known"].update(r["known"])
         merged["violations"].extend(r["violations"])
         merged["digests"].extend(r["digests"])
+        if r.get("lines"):
+            merged["lines"] = r["lines"]
         if len(merged["samples"]) < 3:
             merged["samples"].extend(r["samples"][: 3 - len(merged["samples"])])
     merged["shapes"] = big["shapes"]
@@ -522,6 +607,7 @@ def run_check(pid, tier="quick", runs=None, workers=None, verif_seed=None, write
             "repo_dir": repo,
             "harness_errors": [e[-500:] for e in errors],
             "extra_part": merged.get("extra"),
+            "library_reach_first_chunk": anchor_file_coverage(pid, merged["lines"]),
         }
         evidence = {
             "property_id": pid,
